@@ -246,6 +246,33 @@ pub fn run(ctx: &mut Ctx) {
                 ctx.check(ok, || format!("C03 reverse-stepping a snapshot of `{}`", prog), || "origin and snapshot step back identically".into(), || detail.clone());
                 ctx.tag("recording-snapshot-check");
             }
+            // a snapshot taken through the C API (`xeh_snapshot`, what an embedding host calls) while a program is paused
+            // in the middle — inside a call, inside a counted loop, or stopped by a run-time error — is the same machine
+            // and goes on exactly like its origin
+            {
+                let mut o = pool[i].xs.clone();
+                let k = ctx.rng.below(5) + 2;
+                let prog = match ctx.rng.below(3) {
+                    0 => format!(": cf {} 0 do I drop loop 5 ; cf cf 7", k),
+                    1 => format!(": cg 1 2 + ; {} 0 do cg drop loop cg", k),
+                    _ => format!(": ch 3 4 * drop 1 0 / ; 9 ch 8"),
+                };
+                if let Some(Ok(())) = crate::guarded(|| o.compile(&prog)) {
+                    for _ in 0..(ctx.rng.below(12) + 2) { if crate::guarded(|| o.next()).map(|r| r.is_err()).unwrap_or(true) { break; } }
+                    let p = Box::into_raw(Box::new(o));
+                    let (mut a, mut b) = unsafe {
+                        let q = xeh::c_api::xeh_snapshot(p);
+                        (*Box::from_raw(p), *Box::from_raw(q))
+                    };
+                    let (d1, d2) = (snapshot(&mut a), snapshot(&mut b));
+                    ctx.check(d1 == d2, || format!("C03 xeh_snapshot of `{}` paused in the middle", prog), || d1.clone(), || d2.clone());
+                    let (r1, r2) = (crate::guarded(|| a.run()).map(|r| format!("{:?}", r)), crate::guarded(|| b.run()).map(|r| format!("{:?}", r)));
+                    let (e1, e2) = (snapshot(&mut a), snapshot(&mut b));
+                    ctx.check(r1 == r2 && e1 == e2, || format!("C03 resuming `{}` on origin and on its xeh_snapshot", prog),
+                        || format!("{:?} {}", r1, e1), || format!("{:?} {}", r2, e2));
+                    ctx.tag("c-api-snapshot-of-a-paused-program");
+                }
+            }
         }
     }
 }
